@@ -8,6 +8,7 @@ import (
 	"fmt"
 	"math/big"
 	"reflect"
+	"strings"
 	"sync"
 	"testing"
 
@@ -226,6 +227,35 @@ func TestC08(t *testing.T) {
 					violation(rt, c, "C08/ill-formed-accepted/"+kind, "an ill-formed program (%s) was compiled instead of refused", kind)
 				}
 				return
+			}
+		}
+		// a binding that is not a decimal amount is refused rather than read in another base
+		if rapid.IntRange(0, 3).Draw(rt, "badBinding") == 0 && impl.Class == numgen.OK {
+			for _, v := range cs.Prog.Vars {
+				val, bound := cs.Env.Vars[v.Name]
+				if !bound || v.Origin != nil || (v.Type != numgen.TNumber && v.Type != numgen.TMonetary) {
+					continue
+				}
+				form := rapid.SampledFrom([]string{"0x10", "0b11", "0o17", "1_000", "0X1f", "1e3"}).Draw(rt, "badAmountForm")
+				env2 := &numgen.Env{Vars: map[string]string{}, Balances: cs.Env.Balances, Meta: cs.Env.Meta, ReqMeta: cs.Env.ReqMeta}
+				for k, x := range cs.Env.Vars {
+					env2.Vars[k] = x
+				}
+				if i := strings.LastIndex(val, " "); v.Type == numgen.TMonetary && i >= 0 {
+					env2.Vars[v.Name] = val[:i+1] + form
+				} else {
+					env2.Vars[v.Name] = form
+				}
+				c.Label("must-reject:binding-not-decimal")
+				got := runImpl(cs.Text, env2, nil)
+				if got.Class == numgen.OK || got.Class == numgen.Insufficient {
+					if !c.IsKnown("C08/ill-formed-accepted/binding-not-decimal") {
+						rt.Logf("script:\n%s\nenv: %s", cs.Text, numgen.EnvString(env2))
+						violation(rt, c, "C08/ill-formed-accepted/binding-not-decimal", "variable %s bound to %q was accepted (outcome %s) instead of refused as not an amount", v.Name, env2.Vars[v.Name], got.Class)
+					}
+					return
+				}
+				break
 			}
 		}
 		// the compilation cache: same behaviour under any size, eviction history and concurrency
